@@ -159,7 +159,9 @@ try:
                 call(singleton.drop_semi_singleton_mapping, CLASSES[ci], args, kw, kwfirst)
             except KeyError:
                 dropped = False
-            ok = ok and (dropped == (i >= 0))
+            # dropping a live mapping must succeed; what dropping an absent one does (KeyError today) is not stated
+            if i >= 0:
+                ok = ok and dropped
             if i >= 0:
                 keys[ci].pop(i)
                 vals[ci].pop(i)
